@@ -472,9 +472,6 @@ def drv_derivative(ctx, k, rng):
         ctx.branch("clauses.same_callable_registered_twice")
     for j, nm in enumerate(order):
         d.add_clause("%s_%d" % (nm, j), lib[nm][0])
-    if k % 2 and order:
-        # replacing a clause under its existing name keeps its position and does not add one
-        d.add_clause("%s_%d" % (order[0], 0), lib[order[0]][0])
     ctx.seen("clauses.registry")
     ctx.check("clauses.registry", [n_ for n_, _ in d.named_clauses()] == ["%s_%d" % (nm, j) for j, nm in enumerate(order)] and len(list(d.clauses())) == len(order),
               "clause_registry", f"named_clauses() does not list the {len(order)} registered clauses in order", sig=(len(order),), clauses=order,
